@@ -297,6 +297,40 @@ def rule_R5(ctx, prj):
             ctx.ok("R5", fi.site(), f"{fi.local} called only from {sorted(c.split(':')[1] for c in callers)}")
 
 
+def rule_R6_evaluated(ctx, prj) -> bool:
+    """scan_path evaluated on a virtual directory tree; False when it leaves the interpreted fragment"""
+    from ..absint import PyRaise, Unknown
+    from .. import walk_eval as W
+    ctx.rule("R6", "scan_path evaluated on a virtual tree with one representative per reason of the property (hidden directory "
+                   "at two depths, hidden file, excluded file at the top and below, excluded directory, name without lexer, "
+                   "lexer of an unsupported language, supported files at three depths): exactly the qualifying files reach "
+                   "_scan_file, each once, for the root given absolute, relative, from the parent and with a '..' segment; the "
+                   "exclusion test receives the path relative to the root the spec was generated for", floor=4)
+    fi = prj.func(f"{SC}:scan_path")
+    want = W.expected()
+    try:
+        for desc, got, roots, exargs in W.scan_scenarios(prj):
+            dup = sorted({x for x in got if got.count(x) > 1})
+            missing = [x for x in want if x not in got]
+            extra = [x for x in got if x not in want]
+            if dup:
+                ctx.viol("R6", "scan_path/analysed-twice", fi.site(), f"{desc}: {dup} reach _scan_file more than once")
+            elif extra:
+                why = W.why_not(extra[0])
+                ctx.viol("R6", f"scan_path/analyses-{why.split()[0]}", fi.site(), f"{desc}: {extra[0]} is analysed although it is {why} ({len(extra)} such file(s): {extra[:4]})")
+            elif missing:
+                ctx.viol("R6", "scan_path/skips-qualifying", fi.site(), f"{desc}: the qualifying file {missing[0]} is not analysed ({len(missing)} missing: {missing[:4]}); "
+                         f"exclusion was asked for {exargs[:6]} against the spec of {roots}")
+            else:
+                ctx.ok("R6", fi.site(), f"{desc}: exactly the {len(want)} qualifying of {len(W.all_files())} files analysed, once each")
+    except (Unknown, PyRaise) as e:
+        ctx.info(f"scan_path not evaluable ({type(e).__name__}: {e}); structural rules R1/R2 decide")
+        ctx.rule("R6", "scan_path not evaluable by the interpreter: structural rules R1/R2 decide", floor=0)
+        ctx.violations[:] = [v for v in ctx.violations if v.rule != "R6"]
+        return False
+    return True
+
+
 def run(ctx, prj: Project):
     ctx.explanation = (
         "Selection logic of the scanner decided structurally: in-place pruning and the dot predicate (folded on sample "
@@ -307,12 +341,13 @@ def run(ctx, prj: Project):
     ctx.not_decided = ["gitignore pattern semantics (pathspec)", "which names pygments maps to which lexer"]
     ctx.trust("os.walk honours in-place edits of the directory list (and only those)", "pathspec gitignore matching", "CPython ast")
     fi = prj.func(f"{SC}:scan_path")
-    ws = find_walkers(fi)
-    if len(ws) != 1:
-        raise AnalysisError(f"scan_path: expected one os.walk loop, found {len(ws)}")
-    w = ws[0]
-    rule_R1(ctx, prj, w)
-    rule_R2(ctx, prj, w)
+    if not rule_R6_evaluated(ctx, prj):
+        ws = find_walkers(fi)
+        if len(ws) != 1:
+            raise AnalysisError(f"scan_path: expected one os.walk loop, found {len(ws)}")
+        w = ws[0]
+        rule_R1(ctx, prj, w)
+        rule_R2(ctx, prj, w)
     rule_R3(ctx, prj)
     rule_R4(ctx, prj)
     rule_R5(ctx, prj)
